@@ -19,8 +19,8 @@ PID = "C01"
 LEVEL = "proof"
 LEAN = ["SaVerif.Props.C01"]
 META = {
-    "text": "Lean: (1) a backend is modelled as an operator-precedence parser over a binding-power table; proved for EVERY token tree t and grammar g: wb g t -> parse g (print t) = t (no parenthesis can be missing), and the fully parenthesised form always parses back; (2) SQLAlchemy's construction (self_group / is_precedent / associative flattening / and_-or_ constant folding / negation rewriting / AsBoolean) and rendering are transcribed; the operator tables are regenerated from the working tree, and the table-level compatibility of SA's precedence numbers with each backend grammar is decided by kernel computation over the regenerated table; (3) semantic rewrites (negation pairs, flattening of associative operators, and_/or_ folding) are proved value-preserving over three-valued logic for every operand. Checked ties: model text == real compiler text for sqlite/postgresql/mysql/mariadb/default on every generated tree, SQLite's real grouping == the model's sqlite grammar, and the property itself is tested by executing the real statement on SQLite against an independent fully parenthesised reference.",
-    "note": "Known findings (partial theorems + counterexamples, exact per-tree classification): sqlite-concat-parent-arith-child (F1), negate-is-general-operand, between-bound-ungrouped, asbool-operand-ungrouped. PostgreSQL/MySQL grammar tables are from documentation and NOT validated (no server); only SQLite executes. Scalar subqueries and literals are atoms. Trusted: Lean kernel, harness, the lexer/bracket-matching of backends (tokens are given), SQLite's evaluation of fully parenthesised text.",
+    "text": "Lean, three layers. (1) Backend: a backend groups the emitted token sequence with an operator-precedence parser over its binding-power table; proved for EVERY token tree and EVERY grammar: wb g t -> parse g (print t) = t, re-association of associative chains changes neither the text nor the value (print_norm, evalG_norm), and a compositional sufficient condition ok g t -> wb g (norm t) (each node only checks that its operands bind tighter than its own binding powers). (2) SQLAlchemy: construction (self_group / is_precedent / associative flattening / and_-or_ folding / negation rewriting / AsBoolean / _between_impl) and rendering (visit_* + sqlite/postgresql/mysql overrides) are transcribed; the operator tables are REGENERATED from the working tree. End-to-end theorems api_tree_value_bool / api_tree_value_num (for every API-call tree of the fragment, every row, the three-valued value the backend computes from the emitted text IS the meaning of the tree — grouping, flattening, single-clause collapse and negation rewriting included; build_bool_eval, negate_eval, boolConstruct_eval, constructForOp_eval) and api_tree_read_back / render_meaning_preserved: for EVERY API-call tree (NumU/BoolU, any size and nesting) the element `build` constructs is in the core fragment and well grouped (build_num, build_bool: induction through _binary_operate, _boolean_compare, _construct_for_op flattening, and_/or_ _construct, _negate), and (core_render_read_back) every well-grouped element (any size/depth) over + - * % unary-minus = != < <= > >= IS IS-NOT AND OR NOT and parentheses renders to text that SQLite / PostgreSQL / MySQL read back as the same tree, hence (core_render_meaning_preserved) evaluates to the value of the fully parenthesised text under every interpretation with associative + * AND OR; the hypothesis coreCompat (higher regenerated precedence number => binds tighter in the grammar on both sides, naturally self-precedent operators are left-associative chains) is decided by the kernel per grammar; the constructors are proved to establish well-groupedness. For ALL operator pairs (incl. concat, LIKE family, IS DISTINCT, truediv/floordiv forms) the same is decided pairwise per dialect. (3) Semantic rewrites over three-valued logic, all operands: every pair of the regenerated negation table is a true negation except is_/is_not with themselves; every operator of the regenerated _associative set is associative. Ties checked on every run: model text == real compiler text on sqlite/postgresql/mysql/mariadb/default (type affinity included; on a textual difference both texts are re-read by the model grammar), real SQLite groups tokens exactly as the model's sqlite table (also with parentheses dropped at random), and the property itself is tested by executing the real statement on SQLite against an independent fully parenthesised reference over a table with NULLs, negatives, empty strings.",
+    "note": "Known findings (partial theorems + counterexamples in Lean, exact per-tree classification by neutralising the one defective decision): sqlite-concat-parent-arith-child (F1), negate-is-general-operand, between-bound-ungrouped, asbool-operand-ungrouped. The general theorem covers the core fragment; concat / LIKE / BETWEEN / CASE / CAST / functions / IS DISTINCT are covered pairwise (depth 2) by kernel decision plus the per-tree runtime verdict (wb, reading == tree) on every generated tree. PostgreSQL/MySQL grammar tables are from documentation and NOT validated (no server); only SQLite executes. Scalar subqueries and literals are atoms; floating point + and * are treated as associative. Trusted: Lean kernel, harness, backend lexers/bracket matching (the model starts from tokens), SQLite's evaluation of fully parenthesised text.",
     "technique": "Lean 4: verified precedence-climbing parser round-trip by structural induction + decide over regenerated operator tables + transcribed constructors; differential correspondence of rendering on 5 dialects; execution oracle on SQLite",
     "design_ref": "DESIGN.md §3 C01, §2 F1",
 }
@@ -219,13 +219,16 @@ class Oracle:
     def classify(self, u):
         """key of the known finding that alone explains the mismatch of `u`, else a generic key"""
         L = self.L
-        present = L.Neutral("ABCD")
+        present = L.Neutral("ABCDF")
         self.build(u, present)
-        for r in sorted(present.hits):
-            if self.holds(u, L.Neutral(r)):
+        known = sorted(present.hits - {"F"})
+        # (rule F, keeping float chains nested, is always allowed on top: a value that went
+        #  through a float-to-text conversion is compared exactly)
+        for r in known:
+            if self.holds(u, L.Neutral(r + "F")):
                 return KEYS[r]
-        if present.hits and self.holds(u, L.Neutral(present.hits)):
-            return KEYS[sorted(present.hits)[0]]
+        if known and self.holds(u, L.Neutral(present.hits)):
+            return KEYS[known[0]]
         return "c01-rendered-vs-reference-mismatch"
 
     def check(self, u):
@@ -260,7 +263,7 @@ def trees(ctx, deep):
     for u in pair_cases():
         yield "pairs", u
     big = ctx.tier == "thorough" or deep
-    n = 30000 if big else 1600
+    n = 30000 if big else 1300
     maxd = 6 if big else 5
     g = L.TreeGen(ctx.rng, exotic=0.04)
     for _ in range(n):
@@ -327,7 +330,10 @@ def run(ctx, deep=False):
                 ctx.sample({"tree": u, "sqlite_text": L.compile_literal(e, "sqlite"), "reference": L.ref_sql(u), "rows": got[:5]})
         # ---- correspondence: rendering on every dialect
         w = " ".join(L.wire(u))
-        for d in L.DIALECTS:
+        # quick tier: the exhaustive pair trees are compiled on the three backends of the property;
+        # mariadb / default (same compilers with other flags) are covered by corpus + random trees
+        dls = L.DIALECTS if (src != "pairs" or ctx.tier == "thorough" or deep) else ("sqlite", "postgresql", "mysql")
+        for d in dls:
             cases.append({"u": u, "dialect": d})
             reqs.append("expr render %s %s" % (d, w))
             if not built:
@@ -339,11 +345,19 @@ def run(ctx, deep=False):
                     impl_out.append("compile-error:" + type(ex).__name__)
         # ---- sqlite grammar validation requests (text must be executable: no `?`)
         if built and not ({"isdistinct", "isnotdistinct"} & set(L.ops_of(u))):
-            for mask in (0, ctx.rng.getrandbits(10)):
+            for mask in ((0, ctx.rng.getrandbits(10)) if (src != "pairs" or ctx.tier == "thorough" or deep or ctx.rng.random() < 0.5) else (0,)):
                 gcases.append({"u": u, "mask": mask})
                 greqs.append("expr parsedrop %d sqlite %s" % (mask, w))
     if ctx.driver_ok():
-        ctx.correspond("corr/c01:render(model text == compiler text, 5 dialects)", cases, impl_out, ctx.driver(reqs))
+        model_out = ctx.driver(reqs)
+        impl_out, ml_fail = L.reconcile_render(ctx, cases, impl_out, model_out, "C01")
+        ctx.correspond("corr/c01:render(model text == compiler text, 5 dialects)", cases, impl_out, model_out)
+        for f in ml_fail[:20]:
+            # only trees that do not carry one of the known grouping findings
+            pres = L.Neutral("ACD")
+            orc.build(f["case"]["u"], pres)
+            if not pres.hits:
+                ctx.violation("c01-model-level-misgrouping-" + f["case"]["dialect"], f["case"], f["detail"])
         # grammar: real SQLite vs the model's reading of the same token text
         gout = ctx.driver(greqs)
         gi, gm, gc = [], [], []
@@ -369,7 +383,7 @@ def run(ctx, deep=False):
         ctx.correspond("corr/c01:sqlite-grammar(real SQLite grouping == model sqlite table)", gc, gi, gm)
         # model-level verdicts per dialect: wb / reading == tree, and the general theorem's
         # hypotheses (Core, WG) and conclusion (ok) evaluated on the built element
-        step = max(1, len(cases) // 6000)
+        step = max(1, len(cases) // (6000 if (ctx.tier == "thorough" or deep) else 3000))
         vcases = cases[::step]
         vout = ctx.driver(["expr parse %s %s" % (c["dialect"], " ".join(L.wire(c["u"]))) for c in vcases])
         bad_wg, bad_thm = [], []
@@ -389,6 +403,30 @@ def run(ctx, deep=False):
                     bad_thm.append(c)
         ctx.obligation("model: every core element built by the constructors is well grouped (WG)", not bad_wg, json.dumps(bad_wg[:2]))
         ctx.obligation("model: core + WG elements are ok / read back (executable instance of core_render_read_back)", not bad_thm, json.dumps(bad_thm[:2]))
+    # ---- the Lean semantics (evalNumU / evalBoolU, the meaning used by api_tree_value_*) against
+    # the real SQLite, on trees of the theorem's fragment, every row of the table
+    if ctx.driver_ok():
+        nfrag = 1500 if (ctx.tier == "thorough" or deep) else 250
+        ecases, ereqs, eimpl = [], [], []
+        rows3 = [(r[1], r[2], r[3]) for r in orc.db.rows]
+        for _ in range(nfrag):
+            u = L.frag_bool(ctx.rng, ctx.rng.randint(1, 3)) if ctx.rng.random() < 0.6 else L.frag_num(ctx.rng, ctx.rng.randint(1, 4))
+            ref = orc.db.run_sql(L.ref_sql(u))
+            if isinstance(ref, str):
+                continue
+            ctx.count("eval-corr-tree")
+            isb = L.utype(u) == "bool"
+            w = " ".join(L.wire(u))
+            for (a, b, c), v in zip(rows3, ref):
+                ecases.append({"u": u, "row": [a, b, c]})
+                ereqs.append("expr evalu %s %s %s %s" % (L.wire_val(a), L.wire_val(b), L.wire_val(c), w))
+                if v is None:
+                    eimpl.append("ok N")
+                elif isb:
+                    eimpl.append("ok T" if v == 1 else "ok F")
+                else:
+                    eimpl.append("ok i%d" % v if isinstance(v, int) else "ok other")
+        ctx.correspond("corr/c01:eval(Lean meaning of fragment trees == real SQLite, every row)", ecases, eimpl, ctx.driver(ereqs))
     orc.close()
     ctx.exhaustive = False
 
@@ -424,7 +462,30 @@ def search(ctx, broken):
         o.close()
 
 
+def replay_model_level(ctx, obj):
+    """re-read the compiler's current text of the tree with the model grammar"""
+    from harness import lib_expr as L
+    from harness import vlib
+
+    c = obj["case"]
+    e = L.to_sa(c["u"])
+    real = L.compile_literal(e, c["dialect"])
+    toks = L.lex_sql(real)
+    if toks is None or not ctx.driver_ok():
+        print("replay C01 (model-level): cannot lex / no driver")
+        return False
+    rt, ru = ctx.driver(["expr readtok %s %s" % (c["dialect"], " ".join(toks)),
+                         "expr readu %s %s" % (c["dialect"], " ".join(L.wire(c["u"])))])
+    rt, ru = rt.split(" "), ru.split(" ")
+    bad = rt[0] == "ok" and ru[0] == "ok" and rt[1] != ru[2]
+    print("replay C01 (model-level) %s text=%r reading=%s intended=%s" % (
+        c["dialect"], real, vlib.dec_str(rt[1]) if rt[1].startswith("s:") else rt[1], vlib.dec_str(ru[2])))
+    return bad
+
+
 def replay(ctx, obj):
+    if obj["case"].get("mode") == "model-level":
+        return replay_model_level(ctx, obj)
     orc = Oracle()
     try:
         u = obj["case"]["u"]
